@@ -90,6 +90,8 @@ type Case struct {
 	// the same entityID after a key rotation, a changed pin).  What counts is the configuration in force
 	// when the document is presented.
 	Prior string `json:"prior,omitempty"`
+	// Noise: options of the SP that concern only what it sends (see spkit.Noise); the verdict must not depend on them
+	Noise uint64 `json:"noise,omitempty"`
 	Ops   []Op   `json:"ops"`
 }
 
@@ -873,6 +875,7 @@ func check(c Case) pbt.Result {
 		first = c.Prior
 	}
 	sp := spkit.NewSP(spkit.Config{Trust: first})
+	spkit.Noise(sp, c.Noise)
 	for i, wd := range warmDocs {
 		if i == 0 && c.Entry == "artifact" {
 			_ = spkit.ParseArtifactXML(sp, wd, []string{"id-req"}, "id-artreq", spkit.SPACS)
@@ -894,6 +897,9 @@ func check(c Case) pbt.Result {
 	}
 
 	res := pbt.Result{Classes: []string{"trust:" + c.Trust, "entry:" + c.Entry}}
+	if c.Noise != 0 {
+		res.Classes = append(res.Classes, "sp-unrelated-options-set")
+	}
 	if c.Prior != "" && c.Warm {
 		res.Classes = append(res.Classes, "reconfigured-after-warm-up")
 	}
@@ -1062,6 +1068,9 @@ func gen(t *rapid.T) Case {
 	}
 	if rapid.IntRange(0, 3).Draw(t, "reconfigured") == 0 {
 		c.Prior = rapid.SampledFrom(spkit.Trusts).Draw(t, "prior")
+	}
+	if rapid.IntRange(0, 2).Draw(t, "noise?") == 0 {
+		c.Noise = rapid.Uint64Range(1, 255).Draw(t, "noise")
 	}
 	c.G = genGenuine(t, c.Entry)
 	if (c.Trust == "fp256" || c.Trust == "fp512") && c.G.KeyInfo == "none" {
